@@ -44,8 +44,9 @@ type Gen struct {
 // ---- constants computed with the reference model ----
 
 var (
-	torsionEnc [][32]byte // encodings of the eight small-order points
-	nonCanon   [][32]byte // accepted non-canonical encodings
+	torsionEnc     [][32]byte // encodings of the eight small-order points
+	nonCanon       [][32]byte // accepted non-canonical encodings
+	baseTorsionEnc [][32]byte // B + T for the eight small-order points T (mixed-order relatives of the base point)
 )
 
 func init() {
@@ -65,6 +66,8 @@ func init() {
 		acc := ref.Identity()
 		for i := 0; i < 8; i++ {
 			torsionEnc = append(torsionEnc, alpha.Encode(acc.X, acc.Y))
+			bt := ref.AddAffine(ref.Base(), acc)
+			baseTorsionEnc = append(baseTorsionEnc, alpha.Encode(bt.X, bt.Y))
 			acc = ref.AddAffine(acc, t)
 		}
 		break
@@ -201,6 +204,10 @@ func (g *Gen) validPointEnc() []byte {
 	rng := g.rng
 	switch k := rng.Intn(10); {
 	case k < 2:
+		if rng.Bool(0.3) {
+			e := baseTorsionEnc[rng.Intn(8)]
+			return e[:]
+		}
 		e := torsionEnc[rng.Intn(8)]
 		return e[:]
 	case k < 3:
@@ -748,10 +755,31 @@ func (g *Gen) importMacro() {
 	e := perm[:4]
 	lam := perm[4]
 	dst := rng.Intn(len(w.P))
+	if rng.Bool(0.3) {
+		// algebraically special scale factors: -1, 2, 1/2, small, 2^k
+		var v *big.Int
+		switch rng.Intn(5) {
+		case 0, 1:
+			v = new(big.Int).Sub(alpha.P, big.NewInt(1))
+		case 2:
+			v = big.NewInt(2)
+		case 3:
+			v = new(big.Int).Rsh(new(big.Int).Add(alpha.P, big.NewInt(1)), 1)
+		default:
+			v = new(big.Int).Lsh(big.NewInt(1), uint(rng.Intn(255)))
+			v.Mod(v, alpha.P)
+		}
+		lb := alpha.LE32(v)
+		g.push(Call{Op: "Element.SetBytes", R: lam, HasB: true, B: lb[:]})
+	}
 	g.push(Call{Op: "Point.ExtendedCoordinates", R: src, E: append([]int{}, e...)})
 	variant := rng.Intn(10)
 	fault := ""
+	noScale := rng.Bool(0.25) // re-import the exported coordinates as they are (bit-identical X, Y)
 	for k := 0; k < 4; k++ {
+		if noScale && variant != 0 {
+			break
+		}
 		if variant == 0 && k == 3 {
 			fault = "reject/sem" // T not scaled: inconsistent quadruple (unless lambda == 1)
 			continue
@@ -786,6 +814,15 @@ func (g *Gen) importMacro() {
 		j := rng.Intn(4)
 		e[(j+1)%4] = e[j]
 		fault = "reject/sem"
+	case 5:
+		// a VALID transformation: (X : Y : -Z : -T) is the point (-x, -y) = P + (0,-1),
+		// sharing X and Y with the source representation
+		g.push(Call{Op: "Element.Negate", R: e[2], E: []int{e[2]}})
+		g.push(Call{Op: "Element.Negate", R: e[3], E: []int{e[3]}})
+	case 6:
+		// a VALID transformation: (-X : Y : Z : -T) is -P, sharing Y and Z
+		g.push(Call{Op: "Element.Negate", R: e[0], E: []int{e[0]}})
+		g.push(Call{Op: "Element.Negate", R: e[3], E: []int{e[3]}})
 	}
 	if rng.Bool(g.cfg.PZeroRecv) && dst != src {
 		g.push(Call{Op: "H.ZeroPoint", R: dst})
